@@ -1,0 +1,110 @@
+// Copyright The gittuf Authors
+// SPDX-License-Identifier: Apache-2.0
+
+//go:build verif
+
+// Assumed (trusted) contracts of the storage interface, over a ghost model of
+// one Git object store: the reference table and the commit graph. Commits are
+// content addressed, so message / parents / tree are functions of the ID alone
+// (assumption A-hash); the store determines which objects it has and what its
+// references point to. This file is comment-only and only read by gvc.
+
+package gitstore
+
+//@ # ---- ghost model -------------------------------------------------------
+//@ ghost refTip smt:(Array Str Bytes)
+//@ ghost refSet smt:(Array Str Bool)
+//@ ghost objSet smt:(Array Bytes Bool)
+//@ # number of storage operations that failed (C16): incremented by every storer method that returns an error other than the
+//@ # documented "reference not found" answer
+//@ ghost faults int
+//@ spec cmsg(h Hash) string
+//@ spec cnpar(h Hash) int
+//@ spec cpar(h Hash, i int) Hash
+//@ spec ctree(h Hash) Hash
+//@ # depth of a commit in the commit graph (parents are strictly shallower): well-foundedness of history
+//@ spec cdepth(h Hash) int
+//@ axiom cnparNonNeg: forall(h, Hash, cnpar(h) >= 0)
+//@ axiom cdepthParent: forall(h, Hash, forall(i, 0 <= i && i < cnpar(h) ==> cdepth(cpar(h, i)) < cdepth(h) && cdepth(cpar(h, i)) >= 0))
+//@ define hashEq(a Hash, b Hash) bool = a == b || (len(a) == 0 && len(b) == 0)
+
+//@ func ext:(pkg/gitstore.Storer).GetReference -> (h, err)
+//@   trusted
+//@   assigns ghost faults
+//@   ensures err == nil ==> refSet[refName] && h == refTip[refName] && objSet[h] && len(h) > 0
+//@   ensures !refSet[refName] ==> err != nil
+//@   ensures errIs(err, ErrReferenceNotFound) ==> !refSet[refName]
+//@   ensures err != nil ==> len(h) == 0
+//@   # a store never answers with the RSL package's own "no entry" sentinel (assumption on Storer implementations)
+//@   ensures !errIs(err, rsl.ErrRSLEntryNotFound)
+//@   ensures faults == old(faults) + ite(err != nil && !errIs(err, ErrReferenceNotFound), 1, 0)
+
+//@ func ext:(pkg/gitstore.Storer).GetCommitMessage -> (m, err)
+//@   trusted
+//@   assigns ghost faults
+//@   ensures err == nil ==> m == cmsg(commitID) && objSet[commitID]
+//@   ensures faults == old(faults) + ite(err != nil, 1, 0)
+
+//@ func ext:(pkg/gitstore.Storer).GetCommitParentIDs -> (ps, err)
+//@   trusted
+//@   assigns ghost faults
+//@   ensures err == nil ==> len(ps) == cnpar(commitID) && objSet[commitID]
+//@   ensures err == nil ==> forall(i, 0 <= i && i < len(ps) ==> ps[i] == cpar(commitID, i) && len(ps[i]) > 0)
+//@   # the interface comment is silent on this; GetParentForEntry relies on it (nil, not empty, for a root commit)
+//@   ensures err == nil && cnpar(commitID) == 0 ==> ps == nil
+//@   ensures err == nil && cnpar(commitID) > 0 ==> ps != nil
+//@   ensures faults == old(faults) + ite(err != nil, 1, 0)
+
+//@ func ext:(pkg/gitstore.Storer).GetCommitTreeID -> (t, err)
+//@   trusted
+//@   assigns ghost faults
+//@   ensures err == nil ==> t == ctree(commitID) && objSet[commitID]
+//@   ensures faults == old(faults) + ite(err != nil, 1, 0)
+
+//@ func ext:(pkg/gitstore.Storer).EmptyTree -> (t, err)
+//@   trusted
+//@   assigns ghost faults
+//@   ensures err == nil ==> len(t) > 0
+//@   ensures faults == old(faults) + ite(err != nil, 1, 0)
+
+//@ # Commit: atomically creates a commit on top of the current tip of targetRef and advances the reference;
+//@ # on error nothing changes (this is proved for gitinterface.Repository against `git update-ref <ref> <new> <old>`).
+//@ func ext:(pkg/gitstore.Storer).Commit -> (h, err)
+//@   trusted
+//@   assigns ghost faults, ghost refTip, ghost refSet, ghost objSet
+//@   ensures err != nil ==> refTip == old(refTip) && refSet == old(refSet) && objSet == old(objSet)
+//@   ensures err == nil ==> refSet == upd(old(refSet), targetRef, true) && refTip == upd(old(refTip), targetRef, h) && objSet == upd(old(objSet), h, true)
+//@   ensures err == nil ==> !old(objSet)[h] && len(h) > 0 && cmsg(h) == message && ctree(h) == treeID
+//@   ensures err == nil && old(refSet)[targetRef] ==> cnpar(h) == 1 && cpar(h, 0) == old(refTip)[targetRef]
+//@   ensures err == nil && !old(refSet)[targetRef] ==> cnpar(h) == 0
+//@   ensures faults == old(faults) + ite(err != nil, 1, 0)
+
+//@ func ext:(pkg/gitstore.Storer).CommitUsingSpecificKey -> (h, err)
+//@   trusted
+//@   assigns ghost faults, ghost refTip, ghost refSet, ghost objSet
+//@   ensures err != nil ==> refTip == old(refTip) && refSet == old(refSet) && objSet == old(objSet)
+//@   ensures err == nil ==> refSet == upd(old(refSet), targetRef, true) && refTip == upd(old(refTip), targetRef, h) && objSet == upd(old(objSet), h, true)
+//@   ensures err == nil ==> !old(objSet)[h] && len(h) > 0 && cmsg(h) == message && ctree(h) == treeID
+//@   ensures err == nil && old(refSet)[targetRef] ==> cnpar(h) == 1 && cpar(h, 0) == old(refTip)[targetRef]
+//@   ensures err == nil && !old(refSet)[targetRef] ==> cnpar(h) == 0
+//@   ensures faults == old(faults) + ite(err != nil, 1, 0)
+
+//@ func ext:(pkg/gitstore.Storer).KnowsCommit -> (knows, err)
+//@   trusted
+//@   pure
+//@   ensures faults == old(faults) + ite(err != nil, 1, 0)
+
+//@ func ext:(pkg/gitstore.Storer).SetReference -> (err)
+//@   trusted
+//@   assigns ghost faults, ghost refTip, ghost refSet
+//@   ensures err != nil ==> refTip == old(refTip) && refSet == old(refSet)
+//@   ensures err == nil ==> refSet == upd(old(refSet), refName, true) && refTip == upd(old(refTip), refName, gitID)
+//@   ensures faults == old(faults) + ite(err != nil, 1, 0)
+
+//@ func ext:(pkg/gitstore.Storer).DeleteReference -> (err)
+//@   trusted
+//@   assigns ghost faults, ghost refTip, ghost refSet
+//@   ensures err != nil ==> refTip == old(refTip) && refSet == old(refSet)
+//@   ensures err == nil ==> refSet == upd(old(refSet), refName, false) && refTip == old(refTip)
+
+//@   ensures faults == old(faults) + ite(err != nil, 1, 0)
